@@ -427,3 +427,178 @@ def c04_intshift(R):
                     f"the expression exhaust memory instead of returning an AST or a claripy error",
                 )
     R.need(n >= 2, "no integer shift by an AST-derived amount found (anchor vanished)")
+
+
+# ----------------------------------------------------------------------------- C08.canon (seed C08-canonicalize-renames-per-call)
+
+
+@rule(
+    "C08.canon",
+    props=("C08",),
+    floor=4,
+    family="GRD",
+    desc="Base.canonicalize assigns a canonical name to a variable only when the caller's map has none for it "
+    "(every store var_map[k] = ... is dominated by `k not in var_map`), the map it threads through is the caller's, "
+    "and the result is replace_dict over that map",
+)
+def c08_canon(R):
+    tree = R.tree
+    BASE = "claripy/ast/base.py"
+    m = tree.mod(BASE)
+    fn = tree.func(BASE, "Base.canonicalize")
+    stores = [
+        st
+        for st in walk_no_nested(fn)
+        if isinstance(st, ast.Assign) and isinstance(st.targets[0], ast.Subscript) and dotted(st.targets[0].value) == "var_map"
+    ]
+    R.need(len(stores) >= 3, "canonicalize no longer stores into var_map (anchor vanished)")
+    for st in stores:
+        key = ast.unparse(st.targets[0].slice)
+        facts = [(ast.unparse(t), pol) for t, pol in guards.guards_of(st)]
+        ok = (f"{key} not in var_map", True) in facts or (f"{key} in var_map", False) in facts
+        R.check(
+            ok,
+            m,
+            st,
+            "canonical name assigned only to a variable the map does not know yet",
+            f"canonicalize overwrites var_map[{key}] without checking that the variable has no canonical name yet: a "
+            f"variable shared between two canonicalize() calls that thread the same map gets two different names",
+            construct=f"var_map[{key}] store in {ast.unparse(st.value).split('(')[0]} arm",
+        )
+    rets = [r for r in walk_no_nested(fn) if isinstance(r, ast.Return)]
+    good = [r for r in rets if isinstance(r.value, ast.Tuple) and len(r.value.elts) == 3 and ast.unparse(r.value.elts[0]) == "var_map" and ast.unparse(r.value.elts[2]).endswith("replace_dict(self, var_map)")]
+    R.check(
+        len(rets) == 1 and len(good) == 1,
+        m,
+        fn,
+        "canonicalize returns (map, counter, self rewritten through that map)",
+        f"canonicalize returns `{norm(rets[0]) if rets else None}`",
+        construct="canonicalize return",
+    )
+
+
+# ----------------------------------------------------------------------------- C11.pending (seed C09-simplify-drops-pending-adds)
+
+FF = "claripy/frontend/full_frontend.py"
+
+
+def _is_empty_list(v):
+    return (isinstance(v, ast.List) and not v.elts) or (isinstance(v, ast.Call) and dotted(v.func) == "list" and not v.args)
+
+
+@rule(
+    "C11.pending",
+    props=("C11", "C09", "C14"),
+    floor=5,
+    family="PAIR",
+    desc="the list of accepted-but-not-yet-asserted constraints (FullFrontend._to_add) is emptied only where those "
+    "constraints cannot be lost: on a fresh object, right after all constraints were asserted into the native solver, "
+    "or in a method that unconditionally drops the native solver (it is rebuilt from self.constraints)",
+)
+def c11_pending(R):
+    tree = R.tree
+    m = tree.mod(FF)
+    cls = tree.cls(FF, "FullFrontend")
+    n = 0
+    for name, fn in util.methods_of(cls).items():
+        params = [a.arg for a in fn.args.args]
+        for st in walk_no_nested(fn):
+            if not (isinstance(st, ast.Assign) and len(st.targets) == 1 and isinstance(st.targets[0], ast.Attribute) and st.targets[0].attr == "_to_add"):
+                continue
+            if not _is_empty_list(st.value):
+                continue
+            n += 1
+            recv = ast.unparse(st.targets[0].value)
+            stmts = list(walk_no_nested(fn))
+            fresh = any(
+                isinstance(x, ast.Assign)
+                and any(ast.unparse(t) == f"{recv}._tls" for t in x.targets)
+                and isinstance(x.value, ast.Call)
+                and (dotted(x.value.func) or "").endswith("local")
+                for x in stmts
+            ) or (recv != "self" and recv not in params)
+            drops = [
+                x
+                for x in stmts
+                if isinstance(x, ast.Assign)
+                and any(ast.unparse(t) == f"{recv}._tls.solver" for t in x.targets)
+                and isinstance(x.value, ast.Constant)
+                and x.value.value is None
+            ]
+            dropped = any(not guards.guards_of(x) for x in drops)
+            flushed = False
+            blk = getattr(st, "_parent", None)
+            for field in ("body", "orelse", "finalbody"):
+                seq = getattr(blk, field, None)
+                if isinstance(seq, list) and st in seq:
+                    i = seq.index(st)
+                    if i > 0 and isinstance(seq[i - 1], ast.Expr) and isinstance(seq[i - 1].value, ast.Call):
+                        c = seq[i - 1].value
+                        argt = [ast.unparse(a) for a in c.args]
+                        if isinstance(c.func, ast.Attribute) and c.func.attr == "add" and f"{recv}._tls.solver" in argt and f"{recv}.constraints" in argt:
+                            flushed = True
+            R.check(
+                fresh or dropped or flushed,
+                m,
+                st,
+                f"FullFrontend.{name}: pending constraints are emptied where they cannot be lost",
+                f"FullFrontend.{name} empties the pending list (`{norm(st)}`) although the native solver may survive "
+                f"(it is dropped only under {[[('' if p else 'not ') + ast.unparse(t) for t, p in guards.guards_of(x)] for x in drops]}) "
+                f"and was not just given all constraints: a constraint that was accepted but not yet asserted is never "
+                f"asserted, so later answers ignore it while it is still listed in .constraints",
+            )
+    R.need(n >= 5, f"only {n} places empty _to_add")
+
+
+# ----------------------------------------------------------------------------- C09.arms (seed C09-abstract-rotateright-as-left)
+
+
+@rule(
+    "C09.arms",
+    props=("C09",),
+    floor=5,
+    family="TAB",
+    desc="in BackendZ3._abstract_internal an arm selected by `op_name == K` that rebuilds the node through a claripy "
+    "operation constructor uses the constructor named K, with the Z3 children in their original order",
+)
+def c09_arms(R):
+    from .ast_tables import registry
+
+    tree = R.tree
+    Z3P = "claripy/backends/backend_z3.py"
+    m = tree.mod(Z3P)
+    fn = tree.func(Z3P, "BackendZ3._abstract_internal")
+    opnames = {d.name for d in registry(tree).decls}
+    n = 0
+    for r in (x for x in walk_no_nested(fn) if isinstance(x, ast.Return)):
+        v = r.value
+        if not (isinstance(v, ast.Call) and (dotted(v.func) or "").startswith("claripy.")):
+            continue
+        ctor = dotted(v.func).split(".", 1)[1]
+        keys = []
+        for t, pol in guards.guards_of(r):
+            if pol and isinstance(t, ast.Compare) and len(t.ops) == 1 and ast.unparse(t.left) == "op_name":
+                c = t.comparators[0]
+                if isinstance(t.ops[0], ast.Eq) and isinstance(c, ast.Constant):
+                    keys = [c.value]
+                elif isinstance(t.ops[0], ast.In) and isinstance(c, (ast.Tuple, ast.List, ast.Set)):
+                    keys = [e.value for e in c.elts if isinstance(e, ast.Constant)]
+        if len(keys) != 1 or keys[0] not in opnames or ctor not in opnames:
+            continue
+        n += 1
+        idx = [
+            x.slice.value
+            for a in v.args
+            for x in ast.walk(a)
+            if isinstance(x, ast.Subscript) and ast.unparse(x.value) == "children" and isinstance(x.slice, ast.Constant)
+        ]
+        R.check(
+            ctor == keys[0] and idx == sorted(idx),
+            m,
+            r,
+            f"_abstract_internal: Z3 node of kind {keys[0]} comes back as {ctor}",
+            f"_abstract_internal rebuilds a Z3 `{keys[0]}` node as `{norm(v)}`: the expression that comes back from "
+            f"Z3 (simplification, model-independent rewriting) is a different operation / operand order than went in",
+            construct=f"_abstract_internal arm {keys[0]}",
+        )
+    R.need(n >= 5, f"only {n} constructor arms found in _abstract_internal")
